@@ -924,6 +924,7 @@ func histEntryMain(args []string) {
 func init() {
 	register("C15", "model_checking", func(r *ev.Run, thorough bool) {
 		r.Phase("revisit distances", func() { revisitDistances(r, thorough) })
+		r.Phase("long churn", func() { longChurn(r, thorough) })
 		r.Phase("history search", func() { histRun(r, thorough) })
 		r.Phase("vector processing orders", func() { processingOrders(r, thorough) })
 		r.Phase("neighbour processing orders", func() { neighbourOrders(r, thorough) })
@@ -939,6 +940,78 @@ func init() {
 		r.Assume("results are compared between histories (differential oracle) and with a pristine child process; nothing is assumed about what the right result is")
 		r.Assume("private (unexported) state may change as long as observables and results agree; such changes only add states")
 	})
+}
+
+// longChurn: far more distinct vectors than any plausible bounded table holds — 9,000 in the quick
+// tier (above 8,192), 70,000 in the thorough tier (above 65,536) — are decoded once each at every
+// decoder of both versions (v3: with the metric tokens rotated, so that the base decoder sees that
+// many distinct strings too); then the oldest vectors are decoded again one after the other, a
+// vector new to the process between every two of them; every repeated decode must give what the
+// first one gave (round 7, C15-A-r7: a second-chance eviction that removes the wrong index key
+// once the table is full and the entry under the clock hand was hit).
+func longChurn(r *ev.Run, thorough bool) {
+	N := 9000
+	if thorough {
+		N = 70000
+	}
+	var n int64
+	for _, ver := range []int{3, 2} {
+		for level := 0; level < 3; level++ {
+			if ver == 2 && level == 0 {
+				continue // only 729 valid strings
+			}
+			ms := spec.UpTo(ver, level)
+			total := uint64(1)
+			for _, m := range ms {
+				total *= uint64(len(m.Codes))
+			}
+			vec := func(k uint64) string {
+				i := (k*1000003 + 777) % total
+				toks := make([]string, len(ms))
+				for j := len(ms) - 1; j >= 0; j-- {
+					c := uint64(len(ms[j].Codes))
+					toks[j] = ms[j].Name + ":" + ms[j].Codes[i%c].Code
+					i /= c
+				}
+				if ver == 2 {
+					return strings.Join(toks, "/")
+				}
+				rot := int(k/total+k) % len(toks) // distinct strings even where the value domain is small
+				return "CVSS:" + spec.V3Versions[k%2] + "/" + strings.Join(append(append([]string{}, toks[rot:]...), toks[:rot]...), "/")
+			}
+			dec := func(s string) string {
+				o, err, pan := lib.DecodeNew(ver, level, s)
+				n++
+				if o == nil {
+					return fmt.Sprintf("rejected %s panic=%q", lib.Class(err), pan)
+				}
+				return hashStr(observables(o))
+			}
+			first := make([]string, 0, 80)
+			for k := 0; k < N; k++ {
+				h := dec(vec(uint64(k)))
+				if k < 80 {
+					first = append(first, h)
+				}
+			}
+			for j := 0; j < 64; j++ {
+				for _, idx := range []int{j, j + 1} {
+					if got := dec(vec(uint64(idx))); got != first[idx] {
+						r.Violate(ev.Violation{Kind: "result-depends-on-what-was-decoded-before", Case: map[string]any{"cvss": ver, "decoder": spec.LevelNames[level], "vector": vec(uint64(idx)),
+							"history": fmt.Sprintf("%d distinct vectors decoded once each on fresh objects (this one was number %d); then, for j = 0..%d: decode vector j again, decode one vector new to the process, decode vector j+1 again", N, idx, j)},
+							Observed: "hash " + got, Expected: "hash " + first[idx] + " (its first decode)"})
+						j = 64
+						break
+					}
+					if idx == j {
+						dec(vec(uint64(N + j)))
+					}
+				}
+			}
+		}
+	}
+	r.Add("long_churn_decodes", n)
+	r.Add("evaluations", n)
 }
 
 // revisitDistances: long single-goroutine histories of fresh-object decodes.  For every distance
